@@ -147,7 +147,9 @@ fn claim_err_name(e: &PasetoClaimError) -> String {
         PasetoClaimError::Invalid(k, _, _) => format!("claim:Invalid:{}", k),
         PasetoClaimError::Unexpected(k) => format!("claim:Unexpected:{}", k),
         PasetoClaimError::DuplicateTopLevelPayloadClaim(k) => format!("claim:Duplicate:{}", k),
-        other => format!("claim:{}", variant_name(&format!("{:?}", other))),
+        PasetoClaimError::Expired => "claim:Expired:exp".to_string(),
+        PasetoClaimError::UseBeforeAvailable(_) => "claim:UseBeforeAvailable:nbf".to_string(),
+        PasetoClaimError::RFC3339Date(v) => format!("claim:RFC3339Date:{}", v),
     }
 }
 
